@@ -23,39 +23,12 @@
 #include <cmath>
 #include <vector>
 
-#ifndef VF_T
-    #define VF_T float
-    #define VF_T_NAME "float"
-#endif
+#include "C16_common.hpp"
 
 namespace {
-namespace fp = vf::fp;
-using T      = VF_T;
-using U      = fp::bits_t<T>;
-constexpr bool IS_F      = sizeof(T) == 4;
-constexpr int MB         = fp::Tr<T>::mbits;
-constexpr int BIAS       = fp::Tr<T>::bias;
-constexpr unsigned NEXP  = 1u << fp::Tr<T>::ebits;
+using namespace c16;
 constexpr unsigned NBLK  = 2 * NEXP;
-constexpr U MTOP         = U(1) << MB;
 constexpr unsigned CHUNKS = 8; // float thorough: mantissa chunks per block
-
-struct Bound {
-    char const* name;
-    unsigned ulp;
-};
-constexpr Bound kBounds[] = {
-#define C16_BOUND(n, u) {n, u},
-#include "C16_bounds.inc"
-#undef C16_BOUND
-};
-long bound_of(char const* subject)
-{
-    for (auto const& b : kBounds) {
-        if (std::strcmp(b.name, subject) == 0) { return (long)b.ulp; }
-    }
-    return -1;
-}
 
 enum Kind { EX, EXS, AP, IR, BO };
 
@@ -239,34 +212,6 @@ Fn const kFns[] = {
 };
 constexpr unsigned NF = sizeof kFns / sizeof kFns[0];
 
-// ---------------------------------------------------------------- mantissa plans
-std::vector<U> const& boundary_mantissas()
-{
-    static std::vector<U> const v = [] {
-        std::vector<U> t;
-        auto add = [&](U m) { t.push_back(m & (MTOP - 1)); };
-        for (int k = 0; k < MB; ++k) {
-            U b = U(1) << k;
-            add(b);
-            add(b - 1);
-            add(b + 1);
-            add(MTOP - b);
-            add(MTOP - b - 1);
-            add((MTOP >> 1) | b);
-            add((MTOP >> 1) | (b - 1));
-            add(MTOP - b + (b >> 1)); // all ones above bit k, then exactly "one half" at that scale
-            add(b | (b >> 1));
-        }
-        add(0);
-        std::sort(t.begin(), t.end());
-        t.erase(std::unique(t.begin(), t.end()), t.end());
-        return t;
-    }();
-    return v;
-}
-// deterministic jitter
-inline U jit(std::uint64_t i) { return (U)(vf::mix(0xC16, i)); }
-
 void plan_list(std::vector<U>& out, unsigned ends, U stride_count)
 {
     out.clear();
@@ -319,30 +264,6 @@ vf::Spec spec(vf::Tier t)
     return s;
 }
 
-U random_pattern(vf::Rng& r)
-{
-    unsigned const mode = (unsigned)r.below(8);
-    U mant              = (U)r.next() & (MTOP - 1);
-    if (r.chance(1, 4)) { // structured mantissa: few significant bits (hits integers / exact halves)
-        int keep = (int)r.below(MB + 1);
-        mant &= ~((U(1) << (MB - keep)) - 1);
-    }
-    if (r.chance(1, 16)) { mant = boundary_mantissas()[r.below(boundary_mantissas().size())]; }
-    unsigned e;
-    switch (mode) {
-    case 0:
-    case 1: e = (unsigned)r.below(NEXP); break;                                    // any exponent
-    case 2:
-    case 3: e = (unsigned)r.range(BIAS - 2, BIAS + MB + 1); break;                 // rounding band
-    case 4: e = (unsigned)r.range(BIAS + 61, BIAS + 65); break;                    // around 2^63
-    case 5: e = (unsigned)r.range(BIAS - 8, BIAS + 8); break;                      // |x| ~ 1
-    case 6: e = (unsigned)r.range(0, 2); break;                                    // zero / denormal / min normal
-    default: e = (unsigned)r.range(BIAS + 5, BIAS + 12); break;                    // overflow thresholds of exp/sinh/gamma
-    }
-    if (e >= NEXP) { e = NEXP - 1; }
-    return (U(r.coin()) << (MB + fp::Tr<T>::ebits)) | (U(e) << MB) | mant;
-}
-
 void run_case(vf::Case& c)
 {
     Ctx x{};
@@ -371,6 +292,11 @@ void run_case(vf::Case& c)
             }
         } else if (reduced) {
             if (k != 0) { return; }
+            // double has 4096 blocks: the boundary-plan strata keep every 16th exponent, both ends and the
+            // whole band 2^-64 .. 2^66 where rounding / integer conversion / overflow thresholds live
+            if (!IS_F && !(x.e % 16 == 0 || x.e < 4 || x.e >= NEXP - 3 || (x.e >= (unsigned)(BIAS - 64) && x.e <= (unsigned)(BIAS + 66)))) {
+                return;
+            }
             plan_list(x.list, 16, 0);
         } else if (IS_F) {
             plan_list(x.list, 128, (U(1) << 15) - 256 - (U)boundary_mantissas().size());
@@ -405,11 +331,12 @@ void run_case(vf::Case& c)
     vf::crumb(x.subject, x.op, x.blockcls, "sign=%d biased-exponent=%u %s n=%zu", (int)x.sign, x.e,
         x.ranged ? "ranged" : (x.raw ? "random patterns" : "mantissa plan"), x.list.size());
     fn.run(x);
-    vf::cover_bulk(x.op, x.n, first_hash, x.n);
-    if (x.skipped) { vf::cover_bulk("(skipped: result not defined by C)", x.skipped, first_hash ^ 0x55, 0); }
+    // distinct inputs: enumerated blocks are pairwise disjoint; the random part may repeat enumerated patterns
+    // and is therefore not counted as distinct at all (conservative)
+    fp::cover_block(x.op, x.n, first_hash, c.enumerated ? x.n : 0);
     if (vf::want_sample(x.op)) {
-        vf::sample(x.op, "%s block sign=%d biased-exponent=%u (%s): %llu arguments compared with libm", x.subject, (int)x.sign,
-            x.e, x.blockcls, (unsigned long long)x.n);
+        vf::sample(x.op, "%s block sign=%d biased-exponent=%u (%s): %llu arguments compared with libm, %llu skipped (result not defined by C)",
+            x.subject, (int)x.sign, x.e, x.blockcls, (unsigned long long)x.n, (unsigned long long)x.skipped);
     }
     if (x.maxulp) {
         char a[96];
